@@ -41,7 +41,7 @@ REQUIRED_COUNTERS = ['bound_pair_deliveries', 'timed_schedules_checked', 'clock_
 
 
 def plan(tier):
-    return dict(cases=5000 if tier == 'quick' else 60000, shards=16, timeout=900 if tier == 'quick' else 3600)
+    return dict(cases=4000 if tier == 'quick' else 60000, shards=16, timeout=900 if tier == 'quick' else 3600)
 
 
 def chart(timed=False, sends=False):
